@@ -623,7 +623,9 @@ func (e *env) load(f *refFile) *wallet.KeyFile {
 	kf, err := wallet.ReadKeyFile(p)
 	os.Remove(p)
 	if err != nil {
-		panic(fmt.Sprintf("reference key file unreadable: %v", err))
+		// a well-formed file written by the reference cipher that the wallet cannot even read is the wallet's failure
+		e.violate(Case{Kind: "baseline", E: f.E, P: f.P}, "reference-file-unreadable:"+e.ents[f.E].Name+":"+e.pws[f.P].Name, "ReadKeyFile refuses a key file built by the reference cipher: %v", err)
+		return nil
 	}
 	return kf
 }
@@ -632,7 +634,11 @@ func (e *env) baseline(f *refFile) bool {
 	cs := Case{Kind: "baseline", E: f.E, P: f.P}
 	key := e.ents[f.E].Name + ":" + e.pws[f.P].Name
 	e.r.Count("baseline_evals", 1)
-	o := safeDecrypt(e.load(f), f.Pw)
+	kf := e.load(f)
+	if kf == nil {
+		return false
+	}
+	o := safeDecrypt(kf, f.Pw)
 	e.r.Count("decrypt_calls", 1)
 	if o.panicked != nil || o.err != nil {
 		e.violate(cs, "reference-file-rejected:"+key, "a key file built by the reference cipher (argon2id t=1 m=64MiB p=4, AES-256-GCM, ad \"zenon\") does not decrypt: err=%v panic=%v", o.err, o.panicked)
@@ -651,7 +657,10 @@ func (e *env) tampered(cs Case, kf *wallet.KeyFile, f *refFile, desc, keyTail st
 	kf2, err := wallet.ReadKeyFile(kf.Path)
 	os.Remove(kf.Path)
 	if err != nil {
-		panic(fmt.Sprintf("tampered file (%s) unreadable: %v", desc, err))
+		// refused before Decrypt: the tampering is detected, which is all the property asks of a tampered file (the
+		// untampered file of every entropy size must still be readable: runRoundTrip and baseline)
+		r.Count("tamper_refused_by_ReadKeyFile", 1)
+		return
 	}
 	if !bytes.Equal(kf2.Crypto.CipherData, kf.Crypto.CipherData) || !bytes.Equal(kf2.Crypto.AesNonce, kf.Crypto.AesNonce) || !bytes.Equal(kf2.Crypto.Argon2Params.Salt, kf.Crypto.Argon2Params.Salt) {
 		panic("tampered file read back differently")
@@ -700,6 +709,9 @@ func (e *env) classifyTamper(cs Case, kf *wallet.KeyFile, o decOut, desc, keyTai
 func (e *env) runFlip(cs Case) {
 	f := e.file(cs.E, cs.P)
 	kf := e.load(f)
+	if kf == nil {
+		return
+	}
 	fp := fieldOf(kf, cs.Field)
 	b := cloneBytes(*fp)
 	if cs.Bit/8 >= len(b) {
@@ -726,6 +738,9 @@ func lengthEdits(field string, cur int) []int {
 func (e *env) runLength(cs Case) {
 	f := e.file(cs.E, cs.P)
 	kf := e.load(f)
+	if kf == nil {
+		return
+	}
 	fp := fieldOf(kf, cs.Field)
 	b := cloneBytes(*fp)
 	if cs.Len <= len(b) {
